@@ -892,6 +892,15 @@ def task_ksa_subspace_solve(ctx):
     ksa_subspace_contract(ctx, SCF + ":scf_forward3", S_.scf_forward3, replay_ksa_batch, "ksa_subspace")
 
 
+def task_pack_rows(ctx):
+    """Every driver diagonalises the PACKED Fock matrix of each active molecule: pack / unpack must pick each molecule's own physical
+    orbitals whatever the other members of the (active) batch are -- same orbital COUNT with different heavy/hydrogen splits
+    included (CH4 next to CO).  Contract shared with C05's pack_unpack (grid of shell patterns)."""
+    from contracts.C05_batching import task_pack_unpack
+
+    task_pack_unpack(ctx)
+
+
 def task_ksa_flag(ctx):
     """O1 for the KSA driver: the statement that sets its convergence flag must clear the flag only if the energy change AND
     a density residual are within bounds proportional to eps (the bounds get_error enforces for the other three drivers).
@@ -965,5 +974,5 @@ def task_density_lemmas(ctx):
     ctx.undecided_clause("commutator [F,P] = 0 and idempotency of the returned density in floating point")
 
 
-TASKS_QUICK = ["get_error", "scf_forward0", "scf_forward1", "scf_forward2_w0", "scf_forward2_w1", "scf_forward2_w2", "scf_forward2_w3", "ksa_flag", "ksa_subspace_solve", "termination", "padding_shift", "sp2_padding_guard", "density_lemmas"]
+TASKS_QUICK = ["get_error", "scf_forward0", "scf_forward1", "scf_forward2_w0", "scf_forward2_w1", "scf_forward2_w2", "scf_forward2_w3", "ksa_flag", "ksa_subspace_solve", "termination", "padding_shift", "sp2_padding_guard", "density_lemmas", "pack_rows"]
 TASKS_THOROUGH = TASKS_QUICK
